@@ -15,7 +15,9 @@ SHAPES = {
     'name':   ['a', 'foo.txt', 'ü', 'a\\x20b', 'x\\u00e9', 'y\\U0001F600', 'abc', '1.5', '1e3', '0x10',
                '-1', '-5', '2017-10-22T18:06:41Zx', 'x2017-10-22T18:06:41Z', '2017-10-22T18:06:41',
                '2017-10-22T18:06:41+02:00', '20171022T180641Z', '2017-13-01T00:00:00Z',
-               '2017-10-22T18:06:41ZZ', '0000-01-01T00:00:00Z', 'SHA1', 'tes\\x5Ct', '1,000', '١٢x', '.'],
+               '2017-10-22T18:06:41ZZ', '0000-01-01T00:00:00Z', 'SHA1', 'tes\\x5Ct', '1,000', '١٢x', '.',
+               # digit-like characters that are no decimal digits (str.isdigit() says yes, int() says no)
+               '\u00b2', '\u2460\u2461', '4\u2080', '\u2776', '1\u00b3'],
     'slash':  ['a/b', 'a\\x2Fb', 'dir/sub/f', 'a/', 'a\\u002fb'],
     'num':    ['0', '12', '00012', '18446744073709551616', '4294967296'],
     'numlen': ['+1', '1_0', '-0', '\u0661\u0662', '0_0', '+0'],
